@@ -7,6 +7,7 @@
 From Coq Require Import List Bool String Arith Permutation.
 Import ListNotations.
 Require Import MV.Model.Resolve MV.Spec.ResolveRule MV.Proofs.ResolveP.
+Require Import MV.Model.ResolveHist MV.Spec.ResolveHistRule MV.Proofs.ResolveHistP.
 Open Scope string_scope.
 Open Scope list_scope.
 
@@ -154,3 +155,182 @@ Example C10_examples :
   resolve wit_e wit_u {| api := [0]; collector := None; fname := "f"; fdom := None; ffw := None; links := None |}
     = Chosen 1 [0].
 Proof. split; [repeat constructor; cbn; intuition discriminate | vm_compute; repeat split]. Qed.
+
+(* =====================================================================================================================
+   SEVERAL FEATURES IN ONE REQUEST, AND CLASSES THAT COME INTO EXISTENCE BETWEEN THE REQUESTS OF ONE PROCESS
+   (Model/ResolveHist.v, Spec/ResolveHistRule.v, Proofs/ResolveHistP.v).  A generated group's match_feature_group_criteria
+   is a term `crit` over the feature's name, GROUP options and CONTEXT options; a request is a LIST of features; the universe
+   is the list of classes created so far in the process.
+   ===================================================================================================================== *)
+
+(* ---- the order in which a subclass walk yields the compute frameworks cannot matter (frameworks as sets) ---- *)
+Theorem C10_resolve_env_order_invariant : forall e e' u u' rq, Permutation u u' ->
+  Permutation (existing e) (existing e') -> Permutation (available e) (available e') ->
+  result_equiv (resolve e u rq) (resolve e' u' rq).
+Proof. intros e e' u u' rq Hu H1 H2. apply resolve_perm_equiv_l; [exact Hu | split; assumption]. Qed.
+Print Assumptions C10_resolve_env_order_invariant.
+
+(* ... nor the order of the API framework list, of the collector's sets, of the links *)
+Theorem C10_resolve_request_sets_invariant : forall e u rq rq', req_equiv rq rq' -> resolve e u rq = resolve e u rq'.
+Proof. exact resolve_req_equiv. Qed.
+Print Assumptions C10_resolve_request_sets_invariant.
+
+(* ---- a feature is computed by a group whose criteria hold for ITS OWN name, group options and context options (and
+        domain, collector, links), on frameworks from all four sources: whatever else the request contains (ls = the links in
+        force when the feature is looked at) ---- *)
+Theorem C10_feature_group_matches_own_options : forall e u mrq ls f n gf, resolve_feat e u mrq ls f = Chosen n gf ->
+  exists c, In c u /\ x_cid c = n /\ x_admissible e mrq ls f c /\
+            forall x, In x (feature_fws (as_request mrq ls f) gf) <-> admissible_fw e (as_request mrq ls f) (as_class f c) x.
+Proof. exact resolve_feat_chosen_l. Qed.
+Print Assumptions C10_feature_group_matches_own_options.
+
+(* the single-feature theorems above apply to every feature of a request through this reading of `admissible` *)
+Theorem C10_x_admissible_char : forall e mrq ls f c,
+  admissible e (as_request mrq ls f) (as_class f c) <-> x_admissible e mrq ls f c.
+Proof. exact x_admissible_char. Qed.
+Print Assumptions C10_x_admissible_char.
+
+(* ---- resolve_all = map resolve.
+   FULL STATEMENT (refuted on the faithful model, see C10_resolve_all_map_refuted):
+     forall e u mrq, map fst (resolve_all e u mrq) = map (resolve_feat e u mrq (m_links mrq)) (m_feats mrq).
+   PROVED outside kf_feature_link (a feature other than the last carries a Link AND some class declares index columns):
+   Engine.add_feature_link_to_links adds a feature's Link to the links the FOLLOWING features are filtered with. ---- *)
+Theorem C10_resolve_all_map_partial : forall e u mrq, kf_feature_link u (m_feats mrq) = false ->
+  map fst (resolve_all e u mrq) = map (resolve_feat e u mrq (m_links mrq)) (m_feats mrq).
+Proof. exact resolve_all_map_l. Qed.
+Print Assumptions C10_resolve_all_map_partial.
+
+(* every feature of a request is resolved like the request that consists of this feature alone *)
+Theorem C10_resolve_all_each_alone_partial : forall e u mrq, kf_feature_link u (m_feats mrq) = false ->
+  forall i f, nth_error (m_feats mrq) i = Some f ->
+  option_map (fun r => [r]) (nth_error (map fst (resolve_all e u mrq)) i) = Some (map fst (resolve_all e u (single mrq f))).
+Proof. exact resolve_all_each_alone_l. Qed.
+Print Assumptions C10_resolve_all_each_alone_partial.
+
+(* ... and the order in which the features are listed does not matter *)
+Theorem C10_resolve_all_order_partial : forall e u mrq fs fs', Permutation fs fs' ->
+  kf_feature_link u fs = false -> kf_feature_link u fs' = false ->
+  Permutation (map fst (resolve_all e u (with_feats mrq fs))) (map fst (resolve_all e u (with_feats mrq fs'))).
+Proof. exact resolve_all_order_l. Qed.
+Print Assumptions C10_resolve_all_order_partial.
+
+Theorem C10_resolve_all_map_refuted :
+  kf_feature_link hw_u [hw_x; hw_r] = true /\
+  map fst (resolve_all hw_e hw_u (single (hw_rq [hw_x; hw_r]) hw_r)) = [Rejected EMultiple] /\
+  map fst (resolve_all hw_e hw_u (hw_rq [hw_x; hw_r])) = [Chosen 3 [0]; Chosen 2 [0]] /\
+  map fst (resolve_all hw_e hw_u (hw_rq [hw_x; hw_r])) <>
+    map (resolve_feat hw_e hw_u (hw_rq [hw_x; hw_r]) None) [hw_x; hw_r] /\
+  request_outcome hw_e hw_u (hw_rq [hw_x; hw_r]) = RAnswered [((3, [0]), true); ((2, [0]), true)] /\
+  request_outcome hw_e hw_u (hw_rq [hw_r; hw_x]) = RRejected (RErr EMultiple).
+Proof. exact feature_link_refuted_l. Qed.
+Print Assumptions C10_resolve_all_map_refuted.
+
+(* ---- what prepare reports for the request: answered exactly when the features are pairwise different and every one of
+        them is resolved; a reported resolution error is the outcome of one of the request's features ---- *)
+Theorem C10_request_answered : forall e u mrq l, request_outcome e u mrq = RAnswered l ->
+  features_check (m_feats mrq) = None /\
+  map (fun x => Chosen (fst (fst x)) (snd (fst x))) l = map fst (resolve_all e u mrq) /\
+  map snd l = map snd (resolve_all e u mrq).
+Proof. exact request_answered_l. Qed.
+Print Assumptions C10_request_answered.
+
+Theorem C10_request_answered_complete : forall e u mrq, features_check (m_feats mrq) = None ->
+  (forall r, In r (map fst (resolve_all e u mrq)) -> exists n gf, r = Chosen n gf) ->
+  request_outcome e u mrq = RAnswered (answered_of (resolve_all e u mrq)).
+Proof. exact request_accepted_l. Qed.
+Print Assumptions C10_request_answered_complete.
+
+Theorem C10_request_rejection_is_a_features_outcome : forall e u mrq er, request_outcome e u mrq = RRejected (RErr er) ->
+  In (Rejected er) (map fst (resolve_all e u mrq)).
+Proof. exact request_rejected_l. Qed.
+Print Assumptions C10_request_rejection_is_a_features_outcome.
+
+(* ---- the duplicate check of Features(...).
+   FULL STATEMENT (refuted, see C10_features_check_refuted): features_check fs = if dup_free fs then None else Some RDuplicate
+   PROVED outside kf_domain_mix (two features equal in name, group and context options, one with and one without a
+   domain): there Feature.__eq__ reaches Domain.__eq__(None), which raises. ---- *)
+Theorem C10_features_check_partial : forall fs, kf_domain_mix fs = false ->
+  features_check fs = if dup_free fs then None else Some RDuplicate.
+Proof. exact features_check_partial_l. Qed.
+Print Assumptions C10_features_check_partial.
+
+Theorem C10_features_check_refuted :
+  kf_domain_mix [hw_r; hw_rd] = true /\ dup_free [hw_r; hw_rd] = true /\
+  features_check [hw_r; hw_rd] = Some RDomainCompare /\
+  request_outcome hw_e [hw_cls 2 ["r"] None] (hw_rq [hw_r]) = RAnswered [((2, [0]), true)] /\
+  request_outcome hw_e [hw_cls 2 ["r"] None] (hw_rq [hw_rd]) = RAnswered [((2, [0]), true)] /\
+  request_outcome hw_e [hw_cls 2 ["r"] None] (hw_rq [hw_r; hw_rd]) = RRejected RDomainCompare.
+Proof. exact domain_mix_refuted_l. Qed.
+Print Assumptions C10_features_check_refuted.
+
+(* ---- whole requests: class definition order / hash order of feature groups and of compute frameworks ---- *)
+Theorem C10_request_outcome_order_invariant : forall e e' u u' mrq, Permutation u u' ->
+  Permutation (existing e) (existing e') -> Permutation (available e) (available e') ->
+  routcome_equiv (request_outcome e u mrq) (request_outcome e' u' mrq).
+Proof. intros e e' u u' mrq Hu H1 H2. apply request_outcome_equiv; [exact Hu | split; assumption]. Qed.
+Print Assumptions C10_request_outcome_order_invariant.
+
+(* ---- history_invariant: for every sequence of operations (class definitions and requests, any length) and whatever
+        order each subclass walk of each request yields, the process state is exactly the classes defined so far (fold_left
+        invariant) and every request is answered as the specification lists: by the rule applied to the classes that exist
+        at that moment ---- *)
+Theorem C10_history_invariant : forall ws, (forall k, walk_ok (ws k)) -> forall st ops,
+  fst (run_history ws st ops) = final_state st ops /\
+  Forall2 routcome_equiv (snd (run_history ws st ops)) (spec_answers st ops).
+Proof. exact history_invariant_l. Qed.
+Print Assumptions C10_history_invariant.
+
+(* ---- history_independent: two histories of the same process image that define the same classes (in any order, with any
+        requests in between) answer a final request alike, and alike to the rule on the final class set: in particular
+        like a fresh process in which the classes are defined first (h2 := defs h1) ---- *)
+Theorem C10_history_independent : forall ws ws', (forall k, walk_ok (ws k)) -> (forall k, walk_ok (ws' k)) ->
+  forall st h1 h2 rq, Permutation (defs h1) (defs h2) ->
+  exists a1 a2, last (snd (run_history ws st (h1 ++ [Request rq]))) (RRejected RDuplicate) = a1 /\
+                last (snd (run_history ws' st (h2 ++ [Request rq]))) (RRejected RDuplicate) = a2 /\
+                routcome_equiv a1 a2 /\
+                routcome_equiv a1 (request_outcome (env_of (p_fws (final_state st h1))) (p_groups (final_state st h1)) rq).
+Proof. exact history_independent_l. Qed.
+Print Assumptions C10_history_independent.
+
+(* the two history theorems separate implementations: a process that remembers the frameworks of open-rule groups until a
+   DIRECT subclass of ComputeFramework appears (Model/ResolveHist.run_memo; NOT the implementation) violates them *)
+Theorem C10_history_memo_process_refuted :
+  spec_answers hm_st [Request (hm_rq [0]); DefFw hm_late; Request (hm_rq [5])]
+    = [RAnswered [((2, [0]), true)]; RAnswered [((2, [5]), true)]] /\
+  snd (run_history (fun _ => id_walk) hm_st [Request (hm_rq [0]); DefFw hm_late; Request (hm_rq [5])])
+    = [RAnswered [((2, [0]), true)]; RAnswered [((2, [5]), true)]] /\
+  run_memo hm_st [Request (hm_rq [0]); DefFw hm_late; Request (hm_rq [5])]
+    = [RAnswered [((2, [0]), true)]; RRejected (RErr ENoGroup)] /\
+  run_memo hm_st [DefFw hm_late; Request (hm_rq [5])] = [RAnswered [((2, [5]), true)]].
+Proof. exact memo_refuted_l. Qed.
+Print Assumptions C10_history_memo_process_refuted.
+
+(* ---- frame: a class whose criteria reject the feature does not influence its resolution (this is what lets the
+        correspondence fold every class outside the generated universe into one non-matching background record) ---- *)
+Theorem C10_nonmatching_class_irrelevant : forall e u rq c, criteria rq c = false -> precheck e u rq = None ->
+  resolve e (c :: u) rq = resolve e u rq.
+Proof. exact resolve_frame_l. Qed.
+Print Assumptions C10_nonmatching_class_irrelevant.
+
+(* ---- non-vacuity: two groups serve the name "r", selected by the CONTEXT option unit; a third reads a GROUP option ---- *)
+Definition ex_xc i cr := {| x_cid := i; x_supers := []; x_crit := cr; x_dom := "default_domain"; x_rule := None; x_idx := None |}.
+Definition ex_xu := [ex_xc 1 (CAnd (CNames ["r"]) (CCtx "unit" "c")); ex_xc 2 (CAnd (CNames ["r"]) (CCtx "unit" "k"));
+                     ex_xc 3 (CAnd (CNames ["r"]) (CGroup "src" "p"))].
+Definition ex_f g c := {| f_name := "r"; f_group := g; f_ctx := c; f_dom := None; f_ffw := None; f_link := None |}.
+Definition ex_m fs := {| m_api := [0]; m_collector := None; m_links := None; m_feats := fs |}.
+Example C10_multi_examples :
+  walk_ok id_walk /\
+  (* both variants in one request: each by its own group, in either order *)
+  request_outcome ex_e ex_xu (ex_m [ex_f [] [("unit", "c")]; ex_f [] [("unit", "k")]])
+    = RAnswered [((1, [0]), true); ((2, [0]), true)] /\
+  request_outcome ex_e ex_xu (ex_m [ex_f [] [("unit", "k")]; ex_f [] [("unit", "c")]])
+    = RAnswered [((2, [0]), true); ((1, [0]), true)] /\
+  (* a variant no group serves makes the request fail, wherever it stands *)
+  request_outcome ex_e ex_xu (ex_m [ex_f [] [("unit", "c")]; ex_f [] [("unit", "z")]]) = RRejected (RErr ENoGroup) /\
+  (* group option and context option together: two groups match -> rejected *)
+  request_outcome ex_e ex_xu (ex_m [ex_f [("src", "p")] [("unit", "c")]]) = RRejected (RErr EMultiple) /\
+  (* the same feature twice *)
+  request_outcome ex_e ex_xu (ex_m [ex_f [] [("unit", "c")]; ex_f [] [("unit", "c")]]) = RRejected RDuplicate /\
+  kf_feature_link ex_xu [ex_f [] [("unit", "c")]; ex_f [] [("unit", "k")]] = false /\
+  kf_domain_mix [ex_f [] [("unit", "c")]; ex_f [] [("unit", "k")]] = false.
+Proof. split; [exact id_walk_ok | vm_compute; repeat split]. Qed.
